@@ -158,8 +158,10 @@ class Ctx:
     # clauses
     def requires(self, label, f): self.out.requires.append((label, f))
     def ensures(self, label, f): self.out.ensures.append((label, f))
-    def raises(self, cls, when=None, ensures=None, iff=False, label=None, unchanged=True, where=None):
-        self.out.raises.append(RaiseCase(cls, when, ensures, iff, label or cls, unchanged, where))
+    def raises(self, cls, when=None, ensures=None, iff=False, label=None, unchanged=True, where=None, impose=None):
+        rc = RaiseCase(cls, when, ensures, iff, label or cls, unchanged, where)
+        rc.impose = impose          # impose(S, T): constructive guarantees on the havocked post-state of this exit (call sites only)
+        self.out.raises.append(rc)
     def emit(self, record): self.out.emits.append(record)
     def expect_trace(self, fn, length, normal_len='same', predicate=False):
         """the activation's own trace of traced calls: fn(k) is the k-th record (a function of the pre-state), `length`
